@@ -347,7 +347,30 @@ def rule_AT2(ctx, tier):
                 rr.ok("refund:loop under users")
             else:
                 rr.fail("refund:loop-without-users", "slots are refunded without the users guard", where=b.line_of(bb))
-    rr.require_floor(7, "AT2 instances")
+    # refund and deletion are ONE durable step: the only DB writes of delete_appointments are the transactional batch
+    # delete (which also persists the refunded balances) or, when nothing was refunded, the single-row delete
+    from . import sql as _sql
+    from .rulekit import truth_fact, shortfn
+    writers = []
+    for bb, t in b.calls():
+        tgt = call_target(t) or ""
+        if tgt.startswith("teos::dbm::DBM::") and tgt in ctx.prog.bodies:
+            kinds = {_sql.classify(st)["kind"] for fid in ctx.prog.family(tgt) for _, st in _sql.body_sql(ctx.prog.bodies[fid])}
+            if kinds & {"insert", "update", "delete"}:
+                writers.append((bb, tgt))
+    allowed = {"teos::dbm::DBM::batch_remove_appointments", "teos::dbm::DBM::remove_appointment"}
+    for bb, tgt in writers:
+        if tgt in allowed:
+            rr.ok("delete_appointments writes through %s" % shortfn(tgt))
+        else:
+            rr.fail("refund:extra-db-write:%s" % shortfn(tgt), "`Gatekeeper::delete_appointments` also writes the database through `%s`, outside the transaction that deletes the appointments: a crash between the two leaves slots refunded for appointments that still exist (or deleted without refund)" % shortfn(tgt), where=b.line_of(bb))
+    for bb, tgt in writers:
+        if tgt.endswith("::remove_appointment"):
+            if truth_fact(ctx, b, bb, "is_empty") is True:
+                rr.ok("single-row delete only when no balance changed")
+            else:
+                rr.fail("refund:non-transactional-delete", "the non-transactional single-row delete is used on a path where users may have been refunded (their new balance is then not persisted atomically with the deletion)", where=b.line_of(bb))
+    rr.require_floor(9, "AT2 instances")
     return rr
 
 
